@@ -113,7 +113,7 @@ def main():
             "guard": "cargo feature verif_hooks on crate bitbybit",
             "enable": "dependency bitbybit = { path = \"/repo/bitbybit\", features = [\"verif_hooks\"] } with BITBYBIT_VERIF_DUMP_DIR=<dir> in the environment of rustc",
             "baseline_off_cmd": "cd /repo && cargo test --workspace --no-fail-fast --offline",
-            "source_commits": ["88e596d"],
+            "source_commits": ["88e596d"],  # hook; fix: commits 6fa87f7 221a90d a4b365f 5e45a26 are unguarded repairs
             "add_only": True,
         },
         "engines": [
